@@ -128,12 +128,16 @@ class ImmuneSystem:
                 violations=[],
             )
 
-        # Check memory for known threats
-        recalled = self.memory.recall_by_hashes(
-            agent_id=agent_id,
-            vocabulary_hash=peptide.vocabulary_hash,
-            structure_hash=peptide.structure_hash,
-        )
+        # Check memory for known threats. Memory is only the second signal: it can
+        # confirm an anomaly the watcher sees now, never behaviour inside the
+        # baseline, and an anergic watcher stays silent.
+        recalled = None
+        if not tcell.is_anergic and tcell.profile.check(peptide):
+            recalled = self.memory.recall_by_hashes(
+                agent_id=agent_id,
+                vocabulary_hash=peptide.vocabulary_hash,
+                structure_hash=peptide.structure_hash,
+            )
 
         if recalled is not None:
             # Known threat - fast response
